@@ -134,6 +134,25 @@ type g04Opts struct {
 	inter  uint64 // bit i: insert NUL/LF before scheme byte i
 	eqPad  int
 	dup    int // 1: the same attribute name, harmless, right before; 2: in a previous tag
+	// stretch: one obfuscation grown to a threshold length (a limit, a window
+	// or a fast path that depends on a length shows only there).
+	// 1 separator run, 2 NUL/LF run inside the scheme, 3 leading-junk run,
+	// 4 white-space run around '=', (NUL runs inside names go through nulAt)
+	stretch    int
+	stretchLen int
+	// wide: character references above 0xFF whose low byte is the scheme
+	// letter (the classifier narrows decoded values to one byte). Outside the
+	// C04 grammar: used only by the conformance workloads.
+	wide bool
+}
+
+var g04StretchLens = []int{63, 64, 65, 255, 256, 257, 1023, 1024, 1025, 2047, 2048, 4095, 4096, 4097, 4098, 8192, 16385, 65536, 65537}
+
+func stretchTo(unit string, n int) string {
+	if unit == "" || n <= len(unit) {
+		return unit
+	}
+	return strings.Repeat(unit, n/len(unit))
 }
 
 var g04Junk = func() []string {
@@ -189,11 +208,26 @@ func isHexDigit(c byte) bool {
 
 // encodeScheme renders each scheme byte with the chosen encoding:
 // 0 literal, 1 &#D; 2 &#D 3 &#0..0D; (1-12 zeros) 4 &#xH; 5 &#XH 6 &#x0..0H; (1-12 zeros) 7 literal.
-func encodeScheme(s string, enc, inter uint64, mask uint64, lfOK bool) string {
+func encodeScheme(s string, enc, inter uint64, mask uint64, lfOK bool, runLen int) string {
+	return encodeSchemeW(s, enc, inter, mask, lfOK, runLen, false)
+}
+
+func encodeSchemeW(s string, enc, inter uint64, mask uint64, lfOK bool, runLen int, wide bool) string {
 	s = applyMask(s, mask)
 	var b strings.Builder
+	runAt := -1
+	if runLen > 0 && len(s) > 1 {
+		runAt = 1 + int((enc^inter)%uint64(len(s)-1))
+	}
 	for i := 0; i < len(s); i++ {
 		c := s[i]
+		if i == runAt {
+			if lfOK && enc>>40&1 == 1 {
+				b.WriteString(strings.Repeat("\n", runLen))
+			} else {
+				b.WriteString(strings.Repeat("\x00", runLen))
+			}
+		}
 		if inter>>(uint(i)&63)&1 == 1 && i > 0 {
 			if !lfOK || inter>>(uint(i+17)&63)&1 == 1 {
 				b.WriteByte(0)
@@ -209,11 +243,20 @@ func encodeScheme(s string, enc, inter uint64, mask uint64, lfOK bool) string {
 			if ne == 0 || ne == 7 {
 				nextLit = s[i+1]
 			}
-			if inter>>(uint(i+1)&63)&1 == 1 {
+			if inter>>(uint(i+1)&63)&1 == 1 || i+1 == runAt {
 				nextLit = 0
 			}
 		} else {
 			nextLit = 'x' // the grammar appends "x..." after the scheme
+		}
+		if wide && (e == 1 || e == 4) && (enc>>uint(i%13))&1 == 1 {
+			cp := int(1+(enc>>50^uint64(i)*977)%0x1000)<<8 | int(c)
+			if e == 1 {
+				fmt.Fprintf(&b, "&#%d;", cp)
+			} else {
+				fmt.Fprintf(&b, "&#x%X;", cp)
+			}
+			continue
 		}
 		switch e {
 		case 1:
@@ -271,7 +314,14 @@ func g04Render(v g04Vec, o g04Opts) string {
 				return r
 			}, junk)
 		}
-		val = junk + encodeScheme(v.value, o.enc, o.inter, o.mask>>7, q != "") + "x"
+		if o.stretch == 3 {
+			junk = stretchTo(junk, o.stretchLen)
+		}
+		runLen := 0
+		if o.stretch == 2 {
+			runLen = o.stretchLen
+		}
+		val = junk + encodeSchemeW(v.value, o.enc, o.inter, o.mask>>7, q != "", runLen, o.wide) + "x"
 	case "indirect":
 		val = insertNul(applyMask(v.value, o.mask>>5), int(o.inter%7))
 	default:
@@ -282,6 +332,15 @@ func g04Render(v g04Vec, o g04Opts) string {
 	}
 	pad := g04EqPad[o.eqPad%len(g04EqPad)]
 	sep := g04Seps[o.sep%len(g04Seps)]
+	switch o.stretch {
+	case 1:
+		if sep == "" {
+			sep = []string{"/", " ", "\n", "\x00"}[o.mask>>9&3]
+		}
+		sep = stretchTo(sep, o.stretchLen)
+	case 4:
+		pad = [2]string{stretchTo(pad[0], o.stretchLen), stretchTo(pad[1], o.stretchLen)}
+	}
 	dup := ""
 	if v.kind == "url" || v.kind == "indirect" {
 		switch o.dup {
@@ -304,6 +363,11 @@ func g04Render(v g04Vec, o g04Opts) string {
 // every prefix x one choice on each axis in turn; beyond that, random
 // products.
 func genC04(w *core.Worker, u core.Unit, emit func(s, meta string)) {
+	genC04x(w, u, false, emit)
+}
+
+// genC04x: wide = also emit vectors outside the C04 grammar (see g04Opts.wide).
+func genC04x(w *core.Worker, u core.Unit, wide bool, emit func(s, meta string)) {
 	vecs := g04All()
 	nv := uint64(len(vecs))
 	if nv == 0 {
@@ -370,6 +434,23 @@ func genC04(w *core.Worker, u core.Unit, emit func(s, meta string)) {
 			if r.Intn(6) == 0 {
 				o.dup = 1 + r.Intn(2)
 			}
+			if r.Intn(12) == 0 {
+				o.stretchLen = g04StretchLens[r.Intn(len(g04StretchLens))]
+				o.stretch = 1 + r.Intn(5)
+				if o.stretch == 5 {
+					// NUL run inside the name
+					o.stretch = 0
+					if len(v.name) > 1 {
+						o.nulAt = 1 + r.Intn(len(v.name)-1) + 1000*o.stretchLen
+					}
+				}
+			}
+		}
+		if wide && v.kind == "url" && i%5 == 0 {
+			o.wide = true
+			if i%10 == 0 {
+				o.mask |= 0xFFFFFFFFFFFFFF80 // scheme in upper case: the low byte matches
+			}
 		}
 		emit(g04Render(v, o), v.kind+"|"+v.name+"|"+v.value)
 	}
@@ -391,7 +472,7 @@ func g04SweepSize() uint64 {
 func c04() *core.Check {
 	return &core.Check{
 		ID: "C04",
-		Rule: "members of the fixed vector grammar G_xss built from the live lists (every black tag, every on* event, style/filter, every URL attribute x scheme, xmlns/xlink/datasrc/dataformatas, attributename indirection, DOCTYPE/ENTITY/<?import/<?xml/IE-conditional/back-tick-comment markup) behind every breakout prefix: an axis-wise sweep (every vector x every prefix, separator, quoting, case mask, tag end, NUL position) followed by random products incl. per-byte character-reference encodings, leading junk and NUL/LF inside schemes. Oracle: IsXSS = true. " +
+		Rule: "members of the fixed vector grammar G_xss built from the live lists (every black tag, every on* event, style/filter, every URL attribute x scheme, xmlns/xlink/datasrc/dataformatas, attributename indirection, DOCTYPE/ENTITY/<?import/<?xml/IE-conditional/back-tick-comment markup) behind every breakout prefix: an axis-wise sweep (every vector x every prefix, separator, quoting, case mask, tag end, NUL position) followed by random products incl. per-byte character-reference encodings, leading junk and NUL/LF inside schemes, and one in twelve with one obfuscation (separator run, NUL/LF run inside the scheme, leading junk, white space around '=', NUL run inside the name) stretched to a threshold length between 63 and 65537 bytes. Oracle: IsXSS = true. " +
 			"Non-trivial = every member; distinct by string.",
 		Plan: func(tier string, seed uint64) []core.Unit {
 			total := g04SweepSize()
